@@ -46,7 +46,7 @@ type Case struct {
 
 // independent rule edits that land in different places of a document
 var independent = []string{"dupOperationID", "pathParamNotInTemplate", "dupParamInline", "twoBodyParams", "bodyAndForm", "headerArrayNoItems", "schemaArrayNoItems",
-	"requiredUndefined", "requiredUndefined", "dupInheritedProperty", "invalidPatternParam", "invalidPatternHeader", "invalidPatternSchema", "invalidPatternItems", "emptyPlaceholder", "overlappingPaths", "overlappingPaths3", "overlappingPaths3",
+	"requiredUndefined", "requiredUndefined", "dupInheritedProperty", "dupInheritedPropertyBesideAllOf", "invalidPatternParam", "invalidPatternHeader", "invalidPatternSchema", "invalidPatternItems", "emptyPlaceholder", "overlappingPaths", "overlappingPaths3", "overlappingPaths3",
 	"placeholderRepeatedApart", "circularAncestry", "unresolvableDefinitionRef", "unresolvableFileRefs", "unresolvableFileRefs"}
 
 func genCase(t *rapid.T) Case {
